@@ -1,0 +1,91 @@
+//! Verification hooks (cargo feature `verif-hooks`, off by default).
+//!
+//! These hooks are purely additive and are no-ops unless a test harness
+//! installs a picker or a delay function:
+//!
+//! - [`set_st_picker`] lets a harness choose which queued task the
+//!   single-threaded executor runs next (thread-local, deterministic),
+//! - [`set_delay_hook`] lets a harness inject delays at the protocol points of
+//!   the multi-threaded executor.
+//!
+//! Not for production use!
+
+use std::cell::RefCell;
+use std::sync::atomic::{AtomicUsize, Ordering};
+
+/// A task picker: called with the current length `n >= 2` of the run queue of
+/// the single-threaded executor, returns the index (in `0..n`) of the task to
+/// run next. Index `n - 1` is the task the executor would run by default.
+pub type StPicker = Box<dyn FnMut(usize) -> usize>;
+
+thread_local! {
+    static ST_PICKER: RefCell<Option<StPicker>> = const { RefCell::new(None) };
+}
+
+/// Installs (or removes) the task picker of the current thread.
+pub fn set_st_picker(picker: Option<StPicker>) {
+    ST_PICKER.with(|p| *p.borrow_mut() = picker);
+}
+
+/// Moves the task chosen by the installed picker, if any, to the back of the
+/// queue so that the next `pop()` returns it. The relative order of all other
+/// tasks is preserved.
+pub(crate) fn st_reorder<T>(queue: &mut Vec<T>) {
+    let n = queue.len();
+    if n < 2 {
+        return;
+    }
+    ST_PICKER.with(|p| {
+        if let Ok(mut p) = p.try_borrow_mut() {
+            if let Some(picker) = p.as_mut() {
+                let idx = picker(n);
+                if idx < n - 1 {
+                    let task = queue.remove(idx);
+                    queue.push(task);
+                }
+            }
+        }
+    });
+}
+
+static DELAY_HOOK: AtomicUsize = AtomicUsize::new(0);
+
+/// Installs (or removes) the global delay function, called with a site
+/// identifier at the protocol points of the multi-threaded executor.
+pub fn set_delay_hook(hook: Option<fn(u32)>) {
+    DELAY_HOOK.store(hook.map_or(0, |f| f as usize), Ordering::SeqCst);
+}
+
+/// Calls the installed delay function, if any.
+#[inline]
+pub(crate) fn delay(site: u32) {
+    let hook = DELAY_HOOK.load(Ordering::Relaxed);
+    if hook != 0 {
+        // Safety: the only non-zero values ever stored are valid `fn(u32)`
+        // pointers.
+        let hook: fn(u32) = unsafe { std::mem::transmute::<usize, fn(u32)>(hook) };
+        hook(site);
+    }
+}
+
+/// Site identifiers passed to the delay function.
+pub mod site {
+    #![allow(missing_docs)]
+    pub const W1: u32 = 1;
+    pub const W2: u32 = 2;
+    pub const W3: u32 = 3;
+    pub const W4: u32 = 4;
+    pub const W5: u32 = 5;
+    pub const W6: u32 = 6;
+    pub const W7: u32 = 7;
+    pub const W8: u32 = 8;
+    pub const W9: u32 = 9;
+    pub const W10: u32 = 10;
+    pub const S1: u32 = 11;
+    pub const S2: u32 = 12;
+    pub const R1: u32 = 13;
+    pub const R2: u32 = 14;
+    pub const P1: u32 = 15;
+    pub const P2: u32 = 16;
+    pub const COUNT: u32 = 17;
+}
